@@ -39,7 +39,7 @@ func c09SetInProcessConfig(c c09Config) {
 	if err := analyzer.ConfigReader.Flags.Set("exclude-checks", ""); err != nil {
 		common.Fatalf("flag exclude-checks: %v", err)
 	}
-	analyzer.VerifResetConfig()
+	resetConfig()
 }
 
 // C09: code without annotations is never reported.
